@@ -7,7 +7,6 @@ Ltac Zify.zify_post_hook ::= Z.div_mod_to_equations.
 Definition widx (w : lzwin) (d : Z) : Z :=
   if w_pos w <=? d then w_size w + w_pos w - d - 1 else w_pos w - d - 1.
 
-Definition hnth (hist : list Z) (d : Z) : Z := match zth hist d with Some b => b | None => 0 end.
 Definition hprev (hist : list Z) : Z := hnth hist 0.
 
 Record Rel (w : lzwin) (hist : list Z) : Prop := mkRel {
@@ -183,4 +182,80 @@ Proof.
   { apply (IH w hist (i + 1)); [constructor; auto | lia | lia]. }
   rewrite Hrest.
   rewrite rev_firstn_S; [reflexivity|]. unfold zlen in Hk. lia.
+Qed.
+
+(* the pending fields do not matter for the contents *)
+Lemma Rel_set_pending w hist pl pd :
+  Rel w hist -> 0 <= pl ->
+  Rel (mkLzwin (w_buf w) (w_size w) (w_start w) (w_pos w) (w_full w) (w_limit w) pl pd) hist.
+Proof.
+  intros [A B C D E F G H] Hpl. constructor; cbn [w_buf w_size w_start w_pos w_full w_limit w_pending_len]; auto.
+Qed.
+
+(* repeat(dist, len): rejects a distance outside the dictionary, otherwise copies
+   min(limit - pos, len) bytes and leaves the rest pending *)
+Lemma repeat_err w hist dist len :
+  Rel w hist -> w_full w <= dist -> lzwin_repeat w dist len = Err E_OTHER.
+Proof. intros _ H. unfold lzwin_repeat. destruct (Z.leb_spec (w_full w) dist); [reflexivity | lia]. Qed.
+
+Lemma repeat_rel w hist dist len :
+  Rel w hist -> w_pos w <= w_limit w -> 0 <= dist < w_full w -> 0 <= len ->
+  let m := Z.min (w_limit w - w_pos w) len in
+  exists w', lzwin_repeat w dist len = Ok w' /\ Rel w' (hcopy hist dist (Z.to_nat m)) /\
+             w_pending_len w' = len - m /\ w_pending_dist w' = dist /\
+             w_start w' = w_start w /\ w_limit w' = w_limit w /\ w_size w' = w_size w /\
+             w_pos w' = w_pos w + m.
+Proof.
+  intros R Hpl Hd Hlen m. unfold lzwin_repeat.
+  destruct (Z.leb_spec (w_full w) dist); [lia|].
+  destruct (Z.ltb_spec (w_limit w) (w_pos w)); [lia|].
+  fold m.
+  assert (Hm : 0 <= m) by (unfold m; lia).
+  assert (Hroom : w_pos w + Z.of_nat (Z.to_nat m) <= w_size w).
+  { destruct R as [_ _ _ Hl _ _ _ _]. unfold m. lia. }
+  pose proof (copy_match_rel (Z.to_nat m) w hist dist R Hd Hroom) as Hc.
+  destruct (copy_match (w_buf w) (w_size w) (w_pos w) dist (Z.to_nat m)) as [buf pos].
+  destruct Hc as [Hpos Hrel].
+  eexists. split; [reflexivity|].
+  split.
+  - apply (Rel_set_pending _ _ (len - m) dist) in Hrel; [|unfold m; lia].
+    cbn [w_buf w_size w_start w_pos w_full w_limit] in Hrel. exact Hrel.
+  - cbn [w_pending_len w_pending_dist w_start w_limit w_size w_pos]. repeat split; lia.
+Qed.
+
+(* set_limit keeps the contents *)
+Lemma set_limit_rel w hist n : Rel w hist -> 0 <= n -> Rel (lzwin_set_limit w n) hist /\ w_pos w <= w_limit (lzwin_set_limit w n).
+Proof.
+  intros R Hn. destruct R as [A [B1 B2] C D E F G H]. unfold lzwin_set_limit.
+  split; [constructor; cbn; auto; lia | cbn; lia].
+Qed.
+
+(* flush(): hands out the bytes produced since the last flush, oldest first *)
+Lemma flush_rel w hist :
+  Rel w hist ->
+  let '(out, w') := lzwin_flush w in
+  out = rev (firstn (Z.to_nat (w_pos w - w_start w)) hist) /\ Rel w' hist /\
+  w_start w' = w_pos w' /\ w_size w' = w_size w /\ w_limit w' = w_limit w /\
+  w_pending_len w' = w_pending_len w /\ w_pending_dist w' = w_pending_dist w.
+Proof.
+  intros R. unfold lzwin_flush.
+  pose proof R as [[Hs Hs16] [[Hp0 Hp1] Hp2] [Hf [Hpf Hnw]] Hl Hm Hc Hem Hpe].
+  split.
+  - apply (aget_list_rel _ w hist (w_start w) R); lia.
+  - split; [|cbn; repeat split; reflexivity].
+    destruct (Z.eqb_spec (w_pos w) (w_size w)) as [Heq|Hne].
+    + (* the write position wraps to the start of the buffer *)
+      constructor; cbn [w_size w_start w_pos w_full w_limit w_pending_len w_buf].
+      * split; assumption.
+      * lia.
+      * pose proof (zlen_nonneg hist). split; [assumption|]. split; [lia|]. intros Hlt. lia.
+      * assumption.
+      * rewrite <- Hm, Heq. rewrite Hs16. reflexivity.
+      * intros d Hd. specialize (Hc d Hd). unfold widx, bget in *. cbn [w_pos w_size w_buf].
+        destruct (Z.leb_spec 0 d); [|lia]. destruct (Z.leb_spec (w_pos w) d); [lia|].
+        replace (w_size w + 0 - d - 1) with (w_pos w - d - 1) by lia. exact Hc.
+      * intros Hz. apply Hem; assumption.
+      * assumption.
+    + constructor; cbn [w_size w_start w_pos w_full w_limit w_pending_len w_buf]; auto.
+      * lia.
 Qed.
